@@ -17,6 +17,8 @@ DOC = {
         'C11.R2': 'execute vs to_shell_str per variant: Remove rm(file); SoftLink/HardLink mv(link,tmp) ln[-s](target,link) rm(tmp); RefLink mv cp--reflink rm; Move mv | cp+rm; execute and space_to_reclaim return the same field\'s length',
         'C11.R3': 'every path interpolated into a shell line derives from Path::quote',
         'C11.R4': 'dedupe: enumerate before par_bridge, one (index, commands) item per group; log_script: every received item is pushed, emitted iff index == next, next += 1 per pop, priority Reverse(index)',
+        'C11.R11': 'a command that execute() refuses on a pure precondition test (FsCommand::check_*: the target of a move exists) is not in the script: the same test is reachable from dedupe(), the generator that both the dry run and the real run use, so the printed script and its summary do not announce operations that the real run refuses',
+        'C11.R10': 'the script contains no command that is bound to fail where the real run restores and the printed script does not: hard links are planned only between paths whose directory entries are on one device (re-evaluates C02.R6, key-of-the-entry)',
         'C11.R9': 'the commands of one group may depend on each other (a symbolic link and the file it points to): run_script executes the commands of a group one after another in script order (FsCommand::execute is applied by a sequential iterator over the group\'s vector, parallelism is across groups), and dedupe_script puts the commands for symbolic links first (stable sort of to_drop by link-ness)',
         'C11.R8': 'the real run does not fail on files the printed script handles: the lock needs no write permission on the file (re-evaluates C20.R6)',
         'C11.R7': 'the real run has no failure mode that the printed script lacks for a link member: the lock is not taken through a symbolic link (re-evaluates C20.R5)',
@@ -98,6 +100,9 @@ def run(ctx):
     from . import c20
     reevaluate(ctx, 'C11.R7', c20.r5, ctx.lib)
     reevaluate(ctx, 'C11.R8', c20.r6, ctx.lib)
+    from . import c02
+    reevaluate(ctx, 'C11.R10', c02.r6)
+    r11(ctx)
     r9(ctx)
     from .common import run_mandatory
     run_mandatory(ctx, 'C11')
@@ -404,6 +409,30 @@ def r6(ctx):
         o['detail'] = '[%s] %s' % (o['rule'], o['detail'])
         o['rule'] = 'C11.R6'
     ctx.rules_run.add('C11.R6')
+
+
+def r11(ctx):
+    """A refusal that execute() decides before it changes anything is decided at script generation too."""
+    rule = 'C11.R11'
+    lib = ctx.lib
+    from ..callgraph import CallGraph
+    cg = CallGraph([lib])
+    # precondition tests: functions of FsCommand that only inspect (no mutating primitive reachable) and return io::Result<()>,
+    # called from the movers / linkers before their first mutating step
+    ex_reach = cg.reachable(['dedupe::FsCommand::execute'])
+    pre = [k for k in sorted(ex_reach) if re.search(r'^dedupe::FsCommand::check_\w+$', k) and k != 'dedupe::FsCommand::check_preconditions']
+    if not ctx.floor(rule, 'precondition tests reachable from FsCommand::execute', len(pre), 1):
+        return
+    gen = cg.reachable(['dedupe::dedupe'], stop=lambda k: k == 'dedupe::FsCommand::execute')
+    for k in pre:
+        b = lib.body(k)
+        if cg.may_mutate(k):
+            ctx.ok(rule, k + '|not-a-pure-test', b.where(), 'not a pure test (it can change the file system): it belongs to the execution only')
+            continue
+        gen = cg.reachable(['dedupe::dedupe'], stop=lambda k_: k_ == 'dedupe::FsCommand::execute')
+        ctx.check(k in gen, rule, k + '|evaluated-at-generation', b.where(), 'the refusal is decided when the script is generated as well (reached from dedupe() through %s)' % ' -> '.join(x.rsplit('::', 1)[-1] for x in (cg.path_to(k)[-4:] if k in gen else [])),
+                  '%s makes execute() refuse a command before anything is changed, but nothing evaluates it when the script is generated: `move --dry-run` prints `mv` and counts the file for a target that '
+                  'already exists, while the real run warns "Target already exists" and processes nothing (and the printed mv would overwrite the file the real run protects)' % k.rsplit('::', 1)[-1])
 
 
 def r9(ctx):
